@@ -287,11 +287,14 @@ func (c *RemoteClient) Ready(ctx context.Context, nextMessageID uint64) error {
 	logger.InfoWithFields(ctx, []logger.Field{
 		logger.Uint64("next_message_id", nextMessageID),
 	}, "Sending ready message")
+
+	// The server can answer before sendDirect returns, so the id it will start from has to be
+	// expected before the message goes out.
+	c.nextMessageID.Store(nextMessageID)
 	if err := c.sendDirect(ctx, &Message{Payload: m}); err != nil {
 		return err
 	}
 
-	c.nextMessageID.Store(nextMessageID)
 	c.handshakeComplete.Store(true)
 	logger.Info(ctx, "Marked handshake complete")
 	handshakeCompleteChannel := c.handshakeCompleteChannel.Load()
